@@ -168,7 +168,8 @@ def _shapes_c11_2(tier):
                      "the enumerated length, or None",
                      "getRandomBytes returns fresh symbolic bytes and counts "
                      "its calls"],
-            patches=lambda shape: ([(kx, "bytearray", mk_bytearray)], []))
+            patches=lambda shape: ([(kx, "bytearray", mk_bytearray)], []),
+            also=("C08",))
 def c11_2(I, shape):
     """server substitutes a random premaster for every malformation, with
     the same RNG use on every path"""
